@@ -32,7 +32,8 @@ def grid_case(draw):
     p = draw(est.params(row, N, cplx))
     lo = est.min_nfft(row, N, p)
     nfft = draw(gen.nfft_at_least(lo, hi_mult=3))
-    return {"row": row, "x": x, "params": p, "nfft": nfft, "c": draw(st.sampled_from([2, 3, 4, 5]))}
+    return {"row": row, "x": x, "params": p, "nfft": nfft, "c": draw(st.sampled_from([2, 3, 4, 5])),
+            "off": draw(est.flag_forms)}     # how "frequency scaling off" is spelled
 
 
 def common(pa, pb, c):
@@ -50,9 +51,10 @@ def c05_grid(ctx, case):
     real = not np.iscomplexobj(x)
     sig = {"row": row, "datatype": "real" if real else "complex", "parity": nfft % 2}
     ctx.sig_on_exception = sig
-    a = est.build(row, x, p, NFFT=nfft)
+    off = est.flag(False, case.get("off", "py"))
+    a = est.build(row, x, p, NFFT=nfft, scale_by_freq=off)
     pa = np.real(est.psd_of(a))
-    b = est.build(row, x, p, NFFT=nfft * c)
+    b = est.build(row, x, p, NFFT=nfft * c, scale_by_freq=off)
     pb = np.real(est.psd_of(b))
     ctx.cls(row, "real" if real else "complex", "odd" if nfft % 2 else "even", "c=%d" % c,
             "NFFT<N" if nfft < len(x) else "NFFT>=N")
